@@ -53,23 +53,28 @@ const (
 	kUFRres         // userdata FR whose finaliser resurrects it (once)
 	kTspin          // table whose finaliser never returns (only under a hard cpu limit)
 	kTkill          // table whose finaliser kills the context it runs in (only owned by a non-root context)
+	kTremarkSame    // as Tremark, but re-marked with the metatable it already has (setmetatable(o, getmetatable(o)))
 	nKinds
 )
 
-var kindName = [nKinds]string{"T", "UR", "UFR", "Tres", "UF", "Tremark", "UFRres", "Tspin", "Tkill"}
+var kindName = [nKinds]string{"T", "UR", "UFR", "Tres", "UF", "Tremark", "UFRres", "Tspin", "Tkill", "TremarkSame"}
 
 func kindF(k uint8) bool     { return k != kUR }
 func kindR(k uint8) bool     { return k == kUR || k == kUFR || k == kUFRres }
 func kindTable(k uint8) bool {
-	return k == kT || k == kTres || k == kTremark || k == kTspin || k == kTkill
+	return k == kT || k == kTres || k == kTremark || k == kTspin || k == kTkill || k == kTremarkSame
 }
-func kindRes(k uint8) bool   { return k == kTres || k == kTremark || k == kUFRres }
+func kindRes(k uint8) bool {
+	return k == kTres || k == kTremark || k == kUFRres || k == kTremarkSame
+}
 func kindMode(k uint8) string {
 	switch k {
 	case kTres, kUFRres:
 		return "res"
 	case kTremark:
 		return "remark"
+	case kTremarkSame:
+		return "remarksame"
 	case kTspin:
 		return "spin"
 	case kTkill:
@@ -188,7 +193,7 @@ type bcfg struct {
 }
 
 var permissive = bcfg{
-	kinds:    []uint8{kT, kUR, kUFR, kTres, kUF, kTremark, kUFRres, kTspin, kTkill},
+	kinds:    []uint8{kT, kUR, kUFR, kTres, kUF, kTremark, kUFRres, kTspin, kTkill, kTremarkSame},
 	ctxKinds: []uint8{cCPU, cMem, cSoft},
 	leaves:   []uint8{lRet, lErr, lKill, lLoop},
 	nvals:    maxVals, maxDepth: 3, maxCtx: 100, length: 1 << 20,
@@ -516,6 +521,12 @@ function GC(o)
     _G["V" .. id] = o
     note("res", o)
     setmetatable(o, MT())
+    note("mark", o)
+  elseif m == "remarksame" then
+    MODE[id] = nil
+    _G["V" .. id] = o
+    note("res", o)
+    setmetatable(o, getmetatable(o))
     note("mark", o)
   elseif m == "spin" then
     while true do end
